@@ -317,13 +317,14 @@ pub fn execute_multi(list: &[Scenario], base: &Path) -> Result<Vec<Executed>, St
         .collect();
     let file = base.join("multi.json");
     std::fs::write(&file, serde_json::to_string(&multi).map_err(|e| e.to_string())?).map_err(|e| e.to_string())?;
-    let out = std::process::Command::new(super::lifecycle::simbp_path())
-        .env_clear()
-        .env("PATH", "/usr/bin:/bin")
-        .env("VERIF_SIMBP_MULTI", &file)
-        .current_dir(base)
-        .output()
-        .map_err(|e| format!("spawn simbp (multi): {e}"))?;
+    let (out, _killed) = crate::pool::output_limited(
+        std::process::Command::new(super::lifecycle::simbp_path())
+            .env_clear()
+            .env("PATH", "/usr/bin:/bin")
+            .env("VERIF_SIMBP_MULTI", &file)
+            .current_dir(base),
+    )
+    .map_err(|e| format!("spawn simbp (multi): {e}"))?;
     let stdout = String::from_utf8_lossy(&out.stdout);
     let codes: Vec<i32> = stdout
         .lines()
